@@ -224,6 +224,7 @@ class _Ctx:
             self.s.add(a)
         self.nq = 0
         self.t = 0.0
+        self.memo = {}
         self.model = None         # a model of assumptions + pc (+ assumed unwinding assertions), when one is known
         self.last_model = None
 
@@ -286,7 +287,7 @@ class _Frame:
 class Interp:
     def __init__(self, W, classes=(), loop_mode=None, default_loop="fork", max_unroll=80, always_interpret=(),
                  attr_stubs=None, fn_stubs=None, decide_timeout_ms=30000, mutants=None, unroll=None,
-                 fork_on_return=False, drop_attr_stores=()):
+                 fork_on_return=False, drop_attr_stores=(), pure=()):
         self.W = W
         self.classes = set(classes)
         self.loop_mode = dict(loop_mode or {})       # qualname -> "merge" | "fork"
@@ -301,6 +302,8 @@ class Interp:
         self.nomerge = set()
         self.unroll_hint = {}
         self.drop_attr_stores = set(drop_attr_stores)
+        self.const_mode = False                       # set by run_concrete(): arguments are wrapped constants
+        self.pure = set(pure)                         # functions without side effects: calls are memoised per path
         self.fork_on_return = fork_on_return          # early exits (`if c: return/raise`) fork instead of merging
         self.unroll = dict(unroll or {})              # qualname -> initial unrolling of its merged loops (validated by the
                                                       # deferred unwinding assertion, raised automatically when too small)
@@ -339,7 +342,9 @@ class Interp:
         return z3.BoolVal(bool(x))
 
     def mk_si(self, e):
-        if all(z3.is_bv_value(c) for c in e.children()) and e.num_args() > 0:
+        # const mode (translator validation on wrapped constants): every operation is evaluated by z3 on
+        # numerals, one at a time, so that it is z3's semantics of the encoding that is compared with Python
+        if self.const_mode and e.num_args() > 0 and all(z3.is_bv_value(c) for c in e.children()):
             e = z3.simplify(e)
         return SI(e)
 
@@ -362,6 +367,8 @@ class Interp:
         """constant-fold small ground terms only (z3.simplify on big shared terms is quadratic overall)"""
         if z3.is_true(e) or z3.is_false(e):
             return e
+        if not self.const_mode:
+            return e              # symbolic runs: no term inspection (the z3 Python API makes it the hot spot)
         if self._ground(e):
             return z3.simplify(e)
         if z3.is_and(e) or z3.is_or(e):
@@ -884,11 +891,56 @@ class Interp:
             return self.invoke(callm, [f] + list(args), kwargs)
         if inspect.isfunction(f):
             if symbolic or f in self.always_interpret or f in self.mutants:
+                if f in self.pure and not kwargs:
+                    return self._call_pure(f, list(args))
                 return self.call(f, list(args), kwargs)
             return self.native(f, args, kwargs)
         if symbolic:
             return self.builtin(f, args, kwargs)
         return self.native(f, args, kwargs)
+
+    def _key(self, v, depth=0):
+        if isinstance(v, SI):
+            return ("i", v.e.get_id())
+        if isinstance(v, SB):
+            return ("b", v.e.get_id())
+        if isinstance(v, Rec):
+            if depth > 3:
+                raise TypeError
+            return ("r", v.cls, tuple((k, self._key(x, depth + 1)) for k, x in sorted(v.f.items())))
+        if isinstance(v, (int, str, bool, type(None))):
+            return ("c", type(v), v)
+        if isinstance(v, (list, dict, set)):
+            raise TypeError          # mutable containers are not memo keys
+        return ("o", id(v))
+
+    def _call_pure(self, f, args):
+        """memo for calls of functions declared pure by the harness: the same function on the same terms
+        under the same guard yields the same term (z3 terms are hash-consed), so side conditions, raises and
+        the result of the first evaluation are reused.  Only valid within one path (cleared per path)."""
+        try:
+            key = (f, "T" if self.g is True else self.g.get_id(), tuple(self._key(a) for a in args))
+        except TypeError:
+            return self.call(f, args)
+        hit = self.ctx.memo.get(key)
+        if hit is not None:
+            self.stats["memo_hits"] = self.stats.get("memo_hits", 0) + 1
+            g_after, val = hit[0], hit[1]
+            self.g = g_after
+            if g_after is False:
+                raise _Dead()
+            return val
+        n_dec = self.ctx.pos
+        g_in = self.g
+        try:
+            val = self.call(f, args)
+        except _Dead:
+            if self.ctx.pos == n_dec:
+                self.ctx.memo[key] = (False, None, g_in, args)
+            raise
+        if self.ctx.pos == n_dec:              # no path decision was taken inside: the evaluation is context-free
+            self.ctx.memo[key] = (self.g, val, g_in, args)
+        return val
 
     def native(self, f, args, kwargs):
         try:
@@ -1636,6 +1688,22 @@ class Interp:
                 fr.loc = saved
             return out
         raise NotEncodable(f"expression {type(e).__name__}")
+
+    def run_concrete(self, fn, fixed, xs):
+        """translator validation primitive: interpret fn(*fixed, *xs) with every x wrapped as a symbolic
+        constant; returns ('value', v) | ('raised', name) | ('paths', n)"""
+        old = self.const_mode
+        self.const_mode = True
+        try:
+            ps = self.explore(lambda: self.call(fn, list(fixed) + [SI(self.val(x)) for x in xs]))
+        finally:
+            self.const_mode = old
+        if len(ps) != 1:
+            return ("paths", len(ps))
+        p = ps[0]
+        if p.dead:
+            return ("raised", p.raises[-1][1] if p.raises else "?")
+        return ("value", self.concretize(p.result))
 
     # -- concretisation --------------------------------------------------------------------------
     def concretize(self, v, model=None):
